@@ -140,7 +140,11 @@ func runX06(rc *RunCtx) {
 	c.DeliverAs(8, &oracletypes.MsgUpdateFeed{Creator: A(8), Name: sp.PriceFeed, Data: price()})
 	payOnce := func() {
 		f := gen.NewFile(randBytes(rc.Rng, int64(1+rc.Intn(600))), 1024)
-		s.PostFile(rc.Intn(2), f, int64(1+rc.Intn(3)), c.Height+14_400+int64(rc.Intn(50_000)), int64(1_000_000+rc.Intn(1_000_000_000)))
+		ahead := 14_400 + int64(rc.Intn(50_000))
+		if rc.Chance(0.4) {
+			ahead = 14_400 * int64(60+rc.Intn(300)) // paid for months: the period spans daylight-saving switches of most zones that have them
+		}
+		s.PostFile(rc.Intn(2), f, int64(1+rc.Intn(3)), c.Height+ahead, int64(1_000_000+rc.Intn(1_000_000_000)))
 	}
 	for b := int64(0); b < 3*W+2*C; b++ {
 		if !nb([]time.Duration{6 * time.Second, time.Hour, 24 * time.Hour}[rc.Intn(3)]) {
